@@ -90,6 +90,11 @@ void Exec::op_edit(Client &c) {
 		std::vector<int> d;
 		if (what == "delrow" || what == "delnamedrow") d.push_back(modn(op->i("i"), m));
 		else { for (long v : parse_list(op->s("list", "0"))) { int k = modn(v, m); if (std::find(d.begin(), d.end(), k) == d.end()) d.push_back(k); } if (d.empty()) d.push_back(0); }
+		// "prefer": the first row to go is chosen by what the present basis says about it (non-basic at its upper end, at its lower end, basic) -
+		// which rows may be deleted under a live solution depends on exactly that
+		if (op->has("prefer")) { StoredBasis pb; std::string pf = op->s("prefer"); char want = pf == "upper" ? '2' : pf == "lower" ? '0' : '1';
+			if (get_basis(*o, pb) && (int)pb.rstat.size() == m) { std::vector<int> cand; for (int k = 0; k < m; k++) if (pb.rstat[k] == want) cand.push_back(k);
+				if (!cand.empty()) { int k = cand[modn(op->i("i", 0), (long)cand.size())]; d.erase(std::remove(d.begin(), d.end(), k), d.end()); d.insert(d.begin(), k); if (what == "delrow" || what == "delnamedrow") d.resize(1); probe("edit.delrow_by_status." + pf); } } }
 		if (what == "delrow") rv = mpq_QSdelete_row(p, d[0]);
 		else if (what == "delrows") { std::vector<int> dd = d; rv = mpq_QSdelete_rows(p, (int)dd.size(), dd.data()); }
 		else if (what == "delsetrows") { std::vector<int> fl(m, 0); for (int k : d) fl[k] = 1; rv = mpq_QSdelete_setrows(p, fl.data()); }
